@@ -552,3 +552,25 @@ def run_pos_pass(prog, rep, floor=8):
     if n < floor:
         raise AnalysisBroken('R-POSPASS: only %d delegating position arguments found' % n)
     return rule
+
+
+def run_dispatch_total(prog, rep):
+    """the positionToIndex dispatchers (the overloads taking a generic Dimension) answer only through the overload of the matching
+    dimension class: no path returns before that overload was asked"""
+    rule = rep.rule('R-DISPATCH-TOTAL', 'the positionToIndex overloads that take a generic Dimension return nothing but what the overload of the matching dimension class answered (no return ahead of the dispatch)', floor=2)
+    n = 0
+    for f in sorted(prog.funcs.values(), key=lambda f: (f.file, f.line)):
+        if f.body is None or not f.q.startswith('nix::util::positionToIndex') or not any(p['type'].replace('const ', '').replace(' &', '').strip() in ('nix::Dimension', 'Dimension') for p in f.params):
+            continue
+        calls = [c for c in f.calls() if (c.callee or {}).get('name') == 'positionToIndex']
+        if not calls:
+            continue
+        n += 1
+        first = min(c.id for c in calls)
+        early = [r for r in f.walk() if r.k == 'return' and r.id < first]
+        rule.check(not early, '%s(%s)' % (f.q, ','.join(p['type'] for p in f.params)[:90]), rep.where(early[0] if early else f), f.label(),
+                   'every return follows the dispatch (%d typed overloads called)' % len(calls),
+                   'returns at line %s before any typed overload was asked: for the inputs that take this path the list / position is answered by the dispatcher itself and can differ from the single conversions' % (early[0].l if early else '?'))
+    if n < 2:
+        raise AnalysisBroken('R-DISPATCH-TOTAL: only %d dispatchers found' % n)
+    return rule
